@@ -141,10 +141,12 @@ def deviates_from_trace(tr):
 # classification of CBMC properties
 # ----------------------------------------------------------------------------------------------
 
-def classify(p, what):
+def classify(p, what, q=None):
     """-> (property id or None, kind)"""
     d = p.get('desc') or ''
     n = p.get('name') or ''
+    if what == 'kernel':
+        return classify_kernel(p, q)
     if d.startswith('canary'):
         return None, 'canary'
     if d.startswith('C03'):
@@ -172,6 +174,24 @@ def classify(p, what):
     if d.startswith('invariant') or d.startswith('label machine'):
         return {'c04': 'C04', 'c03': 'C03'}.get(what, 'C04'), 'invariant'
     # CBMC's instrumented checks
+    return 'C08', 'safety'
+
+
+def classify_kernel(p, q):
+    """DFCC obligations of an enforced kernel contract: map each to the BxDecay0 property its clause serves"""
+    n = p.get('name') or ''
+    d = p.get('desc') or ''
+    ln = str((p.get('loc') or {}).get('line') or '')
+    txt = (q.meta.get('linemap') or {}).get(ln, '') if q else ''
+    if '.postcondition.' in n or '.precondition.' in n:
+        p['desc'] = d.replace('Check ', '') + ' :: ' + txt
+        if re.search(r'g_evis|g_enom', txt):
+            return 'C03', 'post'
+        return 'C04', 'post'
+    if '.assigns.' in n or 'is assignable' in d:
+        return 'C07', 'frame'
+    if 'unwinding assertion' in d:
+        return 'C04', 'unwind'
     return 'C08', 'safety'
 
 
@@ -250,6 +270,87 @@ def l3_queries(db, contracts, consts, what, only=None, known=()):
     return qs, skipped
 
 
+def kernel_queries(db, contracts, consts):
+    import kernels
+    qs = []
+    skipped = []
+    for name in sorted(kernels.kernel_functions(contracts)):
+        if name not in db['funcs']:
+            skipped.append((name, 'contract for a function that was not rendered'))
+            continue
+        if name in kernels.ASSUMED:
+            skipped.append((name, 'contract ASSUMED, not enforced: ' + kernels.ASSUMED[name]))
+            continue
+        try:
+            q = kernels.build_kernel_query(db, contracts, consts, name)
+        except bx2c.Unsupported as e:
+            skipped.append((name, str(e)))
+            continue
+        lm = {}
+        for i, ln in enumerate(q['c'].split('\n')):
+            if ln.startswith('__CPROVER_ensures(') or ln.startswith('__CPROVER_requires('):
+                lm[str(i + 1)] = ln
+        q['meta']['linemap'] = lm
+        qs.append(Query('kernel/%s' % name, q['c'], kind='dfcc', dfcc=q['dfcc'], meta=q['meta'], timeout=1500, mem_gb=16,
+                        extra=('--object-bits', '12') + tuple(kernels.EXTRA.get(name, ()))))
+    return qs, skipped
+
+
+REF_FOR = os.path.join(bx2c.REPO, 'resources/code/decay0/decay0_2020-04-20.for')
+
+
+def rel_queries(db, prop):
+    """relational obligations against the Fortran reference: C01 = published background nuclides, C02 = everything
+    that serves double-beta events (the *low cascades and the alpha-chain daughters)"""
+    import rel, f77c
+    prog = f77c.Program(REF_FOR)
+    bkg, dbd = native.catalogues()
+    bnames = set()
+    for n in bkg:
+        for part in n.split('+'):
+            bnames.add(part)
+    qs, skipped = [], []
+    only = set(os.environ['VERIF_ONLY'].split(',')) if os.environ.get('VERIF_ONLY') else None
+    for name, kind in sorted(l3.l3_routines(db).items()):
+        if only and name not in only:
+            continue
+        is_bkg = name in bnames or name in ('Sc48', 'Nb96', 'Po212')
+        if (prop == 'C01') != is_bkg:
+            continue
+        if rel.ref_name_for(name, prog) is None:
+            skipped.append((name, 'no counterpart in the reference (BxDecay0-only routine): outside the property'))
+            continue
+        try:
+            pq = rel.build_pair_queries(db, prog, name, propid=prop)
+        except (bx2c.Unsupported, f77c.Unsupported) as e:
+            skipped.append((name, 'NOT COVERED: ' + str(e)[:300]))
+            continue
+        for q in pq:
+            q['meta']['what'] = 'rel'
+            ch = q['meta'].get('chunk')
+            qid = 'rel/%s' % name + ('' if not ch else '/cuts%d-%d' % (ch[0], ch[1]))
+            qs.append(Query(qid, q['c'], checks=['--bounds-check'], meta=q['meta'], timeout=900, mem_gb=10))
+    return qs, skipped
+
+
+def evis_queries(db, contracts, consts):
+    """booked-energy lemmas (float tolerance facts): thorough tier, long budget; undecided => reported as ASSUMED"""
+    import kernels
+    qs = []
+    for name in sorted(kernels.kernel_functions(contracts)):
+        if name not in db['funcs'] or name in kernels.ASSUMED:
+            continue
+        try:
+            q = kernels.build_evis_query(db, contracts, consts, name)
+        except bx2c.Unsupported:
+            continue
+        if q is None:
+            continue
+        q['meta']['soft'] = True
+        qs.append(Query('evis/%s' % name, q['c'], checks=[], meta=q['meta'], timeout=1200, mem_gb=12))
+    return qs
+
+
 # ----------------------------------------------------------------------------------------------
 # running a property
 # ----------------------------------------------------------------------------------------------
@@ -280,6 +381,7 @@ def evaluate(prop, queries, results, known, tier, seed, t0, extra_cov=None, skip
     canary_bad = []
     samples = []
     per_backend = collections.Counter()
+    assumed_lemmas = []
     solver_s = 0.0
     functions = set()
     cached = 0
@@ -289,12 +391,15 @@ def evaluate(prop, queries, results, known, tier, seed, t0, extra_cov=None, skip
             cached += 1
         solver_s += r.get('wall_s', 0)
         if r['status'] != 'decided':
+            if q.meta.get('soft'):
+                assumed_lemmas.append('%s: undecided within budget (%s) -> ASSUMED, not proved' % (q.qid, r.get('why', '?')[:80]))
+                continue
             undecided.append((q.qid, r.get('why', '?')[:500]))
             continue
         functions.add(q.meta.get('function'))
         saw_canary = False
         for p in r['props']:
-            pid, kind = classify(p, what)
+            pid, kind = classify(p, what, q)
             if kind == 'canary':
                 saw_canary = True
                 if p['status'] != 'FAILURE':
@@ -372,6 +477,7 @@ def evaluate(prop, queries, results, known, tier, seed, t0, extra_cov=None, skip
             'not_rendered_or_skipped': [list(s) for s in (skipped or [])],
             'samples': samples,
             'extraction_selfcheck': selfcheck,
+            'assumed_lemmas': assumed_lemmas,
         },
         'assumptions': assumptions or [],
         'wall_s': round(time.time() - t0, 1),
@@ -462,12 +568,42 @@ def prop_l3(prop, tier, seed):
         qs, sk = l3_queries(db, contracts, consts, w, known=known)
         queries += qs
         skipped += sk
+    if not os.environ.get('VERIF_ONLY'):
+        qs, sk = kernel_queries(db, contracts, consts)
+        if os.environ.get('VERIF_KERNELS_ONLY'):
+            queries = []
+        queries += qs
+        skipped += sk
+        if prop == 'C03' and tier == 'thorough':
+            queries += evis_queries(db, contracts, consts)
     results = run_all(queries)
     return evaluate(prop, queries, results, known, tier, seed, t0, skipped=skipped, selfcheck=sc,
                     assumptions=ASSUMPTIONS.get(prop, []))
 
 
+def prop_rel(prop, tier, seed):
+    t0 = time.time()
+    db = load_db()
+    known, fixed = load_known()
+    sc = selfcheck_summary(db, tier, seed)
+    if sc['differences']:
+        log('extraction self-check failed: %s' % sc['first_differences'])
+        return 2
+    queries, skipped = rel_queries(db, prop)
+    results = run_all(queries)
+    cuts = sum(len(q.meta.get('cuts', [])) + 1 for q in queries)
+    return evaluate(prop, queries, results, known, tier, seed, t0, skipped=skipped, selfcheck=sc,
+                    assumptions=ASSUMPTIONS.get('C01', []),
+                    extra_cov={'routine_pairs': len(queries), 'cut_points': cuts,
+                               'reference': 'resources/code/decay0/decay0_2020-04-20.for rendered by f77c on this run',
+                               'arithmetic': 'uninterpreted + - * / and libm (equal under every interpretation => equal under IEEE); literals within 5e-6 relative are one constant'})
+
+
 ASSUMPTIONS = {
+    'C01': ['f77c renders the reference faithfully (no Fortran compiler offline to cross-check); reference REAL arithmetic is rendered as double',
+            'simulation meta-lemma: segment-wise preservation of the relation from related states implies equal traces for whole runs',
+            'callees are related by their own obligations; here they are the same uninterpreted effect on both sides',
+            'literals that differ by <= 5e-6 relative are the same constant (the reference itself mixes 0.511/emass, 3.1415927/pi)'],
     'C04': ['deviates are doubles strictly inside (0,1) (i_random documents [0,1): a deviate of exactly 0 gives log(0))',
             'time order at L3 follows from the leaf contract (time = previous + tdlev, tdlev >= tclev >= 0) and the call-site preconditions; the running sum itself is not re-proved at L3',
             'termination after a bounded number of deviates is almost-sure only and is not claimed; what is proved: every cycle consumes >= 1 deviate and has an exit edge'],
@@ -492,6 +628,8 @@ def main():
     try:
         if cmd in ('C04', 'C08', 'C03'):
             return prop_l3(cmd, tier, seed)
+        if cmd in ('C01', 'C02'):
+            return prop_rel(cmd, tier, seed)
         log('property %s is not claimed (see MANIFEST.not_applicable)' % cmd)
         return 2
     except Exception:
